@@ -81,6 +81,12 @@ pub fn pathbuf_lit(b: &'static [u8]) -> (r: PathBuf) ensures r@ == b@, (b@ =~= s
 #[verifier::external_body]
 pub fn osstring_lit(b: &'static [u8]) -> (r: OsString) ensures r@ == b@ { unimplemented!() }
 
+/// R6 variant: the same chain with `.filter(|p| !p.is_empty())` (empty components dropped)
+#[verifier::external_body]
+pub fn collect_components_nonempty<P: AsRefPath>(path: &P) -> (r: VecDeque<OsString>)
+    ensures cv(r@) == split(path.pview()).filter(|c: Seq<u8>| c.len() > 0),
+        forall|i: int| 0 <= i < r@.len() ==> no_slash(#[trigger] r@[i]@),
+{ unimplemented!() }
 /// R6 (collect_components): `path.raw_components().map(|p| p.to_os_string()).collect::<VecDeque<_>>()`
 /// (contract derived from RawComponents::next, U01, + std map/collect semantics, A7)
 #[verifier::external_body]
@@ -88,6 +94,10 @@ pub fn collect_components<P: AsRefPath>(path: &P) -> (r: VecDeque<OsString>)
     ensures cv(r@) == split(path.pview()),
         forall|i: int| 0 <= i < r@.len() ==> no_slash(#[trigger] r@[i]@),
 { unimplemented!() }
+/// R6 (all_empty): `remaining_components.iter().all(|part| part.is_empty())` (std Iterator::all semantics, A7)
+pub open spec fn all_empty(s: Seq<Seq<u8>>) -> bool { forall|i: int| 0 <= i < s.len() ==> (#[trigger] s[i]).len() == 0 }
+#[verifier::external_body]
+pub fn all_components_empty(q: &VecDeque<OsString>) -> (r: bool) ensures r == all_empty(cv(q@)) { unimplemented!() }
 /// R6 (join_remaining): `Itertools::intersperse(once(&part).chain(rest.iter()).map(as_os_str), "/").collect::<OsString>().into()`
 #[verifier::external_body]
 pub fn join_remaining(part: &OsString, rest: &VecDeque<OsString>) -> (r: PathBuf) { unimplemented!() }
